@@ -319,7 +319,11 @@ Definition run (ms : list dmsg) : list obs := trace (init ms) (seq_sched ms).
 (* a conversation as the harness plays it: messages in delivery order, platform commands issued
    (in lock step) in between; a command is written with the header of the message that joined the
    session (the first one with a handler that is not a re-request) *)
-Inductive item := IMsg (d : dmsg) | ICmd (cmd : N) (body : list N).
+Inductive item :=
+| IMsg (d : dmsg)
+| ICmd (cmd : N) (body : list N)            (* a command whose caller has its answer (time-out) before the next item *)
+| IAsk (cmd : N) (body : list N) (d : dmsg).  (* a command left OUTSTANDING, then the terminal's response [d] to it:
+                                               the writer hands [d] to the waiting caller (MAbsorb) *)
 Definition joins (d : dmsg) : bool :=
   match lookup (m_id (d_m d)) with Some _ => negb (is_reissue d) | None => false end.
 Fixpoint items_moves (h : option msg) (its : list item) : list move :=
@@ -329,9 +333,13 @@ Fixpoint items_moves (h : option msg) (its : list item) : list move :=
     seq_moves d ++ items_moves (match h with Some _ => h | None => if joins d then Some (d_m d) else None end) t
   | ICmd cmd body :: t =>
     (match h with Some hh => [MCmd hh cmd body] | None => [] end) ++ items_moves h t
+  | IAsk cmd body d :: t =>
+    (* without a session SendActiveMessage fails at once and [d] is an ordinary message *)
+    (match h with Some hh => [MCmd hh cmd body; MLook; MSend; MAbsorb] | None => seq_moves d end)
+    ++ items_moves (match h with Some _ => h | None => if joins d then Some (d_m d) else None end) t
   end.
 Definition items_msgs (its : list item) : list dmsg :=
-  flat_map (fun it => match it with IMsg d => [d] | ICmd _ _ => [] end) its.
+  flat_map (fun it => match it with IMsg d => [d] | ICmd _ _ => [] | IAsk _ _ d => [d] end) its.
 Definition run_items (its : list item) : list obs :=
   trace (init (items_msgs its)) (items_moves None its).
 
@@ -452,3 +460,41 @@ Definition outcomes (t : list obs) : list dmsg :=
                      end) t.
 
 Definition not_1003 (d : dmsg) : Prop := m_id (d_m d) <> 0x1003.
+
+(* conversations whose outstanding commands are answered by something the writer can absorb *)
+Definition asks_ok (its : list item) : bool :=
+  forallb (fun it => match it with IAsk _ _ d => is_response d && has_complete d | _ => true end) its.
+Definition no_asks (its : list item) : bool :=
+  forallb (fun it => match it with IAsk _ _ _ => false | _ => true end) its.
+
+(* ------------------------------------------------------------------------------------------ *)
+(* Any number of connections                                                                  *)
+(* ------------------------------------------------------------------------------------------ *)
+(* service.go Run: every accepted connection gets its own handler map from createDefaultHandle() and
+   its own `connection` (channels, platformSerialNumber): the state of the server's reply path is the
+   list of the connections' states, a global move is a move of ONE connection, and that connection's
+   [step] sees and changes its own component only. *)
+Fixpoint upd {A} (l : list A) (i : nat) (x : A) : list A :=
+  match l, i with
+  | [], _ => []
+  | _ :: t, O => x :: t
+  | y :: t, S j => y :: upd t j x
+  end.
+
+Definition gstep (cs : list conn) (g : nat * move) : list conn * list (nat * obs) :=
+  match nth_error cs (fst g) with
+  | Some c => let r := step c (snd g) in (upd cs (fst g) (fst r), map (fun o => (fst g, o)) (snd r))
+  | None => (cs, [])
+  end.
+Fixpoint gfinal (cs : list conn) (s : list (nat * move)) : list conn :=
+  match s with [] => cs | g :: t => gfinal (fst (gstep cs g)) t end.
+Fixpoint gtrace (cs : list conn) (s : list (nat * move)) : list (nat * obs) :=
+  match s with
+  | [] => []
+  | g :: t => let r := gstep cs g in snd r ++ gtrace (fst r) t
+  end.
+(* what connection [i] did in a global history, what was observed on connection [i] *)
+Definition proj_moves (i : nat) (s : list (nat * move)) : list move :=
+  flat_map (fun g => if Nat.eqb (fst g) i then [snd g] else []) s.
+Definition proj_obs (i : nat) (t : list (nat * obs)) : list obs :=
+  flat_map (fun g => if Nat.eqb (fst g) i then [snd g] else []) t.
